@@ -378,7 +378,12 @@ def main():
                 txt += "forbidden constructs: %s\n" % pinfo["forbidden"]
             if pinfo.get("leanchecker_rc", 0) != 0:
                 txt += "leanchecker failed: %s\n" % pinfo.get("leanchecker_out", "")
-            # search: did the correspondence already exhibit a failing input?
+            # search: did the correspondence already exhibit a failing input? property-specific searches
+            if pid == "C04" and not res.violations:
+                try:
+                    props.search_C04(res)
+                except Exception as e:
+                    txt += "search error: %s\n" % e
             tail = "" if res.violations else "no-failing-input-found"
             txt += "search: %s\n" % ("see the correspondence replays of this run" if res.violations else
                                      "correspondence run of this tier found no input on which implementation and model differ")
